@@ -446,7 +446,7 @@ func runRun(e *core.Env) {
 				inst.Stop(20 * time.Second)
 			}
 		}()
-		if !inst.WaitLogs("relay service listener", 9, 10*time.Second) {
+		if !inst.WaitLogs("relay service listener", 9, 40*time.Second) {
 			viol("listeners_not_started", "only %d of 9 listeners started", inst.CountLogs("relay service listener"))
 			return
 		}
@@ -493,7 +493,7 @@ func runRun(e *core.Env) {
 			peer.SendRaw(udpTarget.Addr, nil)
 			bad := r.Bytes(r.Pick(1, 16, 40))
 			peer.Conn.WriteToUDPAddrPort(bad, netipMust(c.cfg["endpoint"].(string)))
-			if !svx.Poll(8*time.Second, func() bool { return len(peer.Got()) >= 1 }) {
+			if !svx.Poll(30*time.Second, func() bool { return len(peer.Got()) >= 1 }) {
 				peer.Close()
 				viol("udp_exchange_failed", "%s: no reply to a datagram relayed through an accepted configuration", c.name)
 				return
@@ -515,7 +515,7 @@ func runRun(e *core.Env) {
 			done := make(chan []byte, 1)
 			go func() { b, _ := io.ReadAll(cc); done <- b }()
 			var got []byte
-			if !svx.Poll(8*time.Second, func() bool {
+			if !svx.Poll(30*time.Second, func() bool {
 				select {
 				case got = <-done:
 					return true
@@ -549,7 +549,7 @@ func runRun(e *core.Env) {
 					}
 				}()
 				var reply string
-				ok := svx.Poll(8*time.Second, func() bool {
+				ok := svx.Poll(30*time.Second, func() bool {
 					select {
 					case reply = <-got:
 						return true
